@@ -11,6 +11,7 @@ import (
 	"net/url"
 	"os"
 	"path/filepath"
+	"reflect"
 	"runtime"
 	"strings"
 	"sync"
@@ -96,6 +97,10 @@ type composition struct {
 	tmp   string
 	// the two sinks that receive composites (flush events down pg, expired/closed groups through pc)
 	gatedSinks []*sinkInfo
+	// the library's own gated.Payload: one pipeline gates and composes it, a second pipeline for the same event
+	// type formats the very same payload; both end in private writer sinks
+	stockGate *gated.Filter
+	stockBufs []*lockedBuf
 }
 
 type hcfg struct {
@@ -268,6 +273,14 @@ func build(r *rt.Rand, tmp string) *composition {
 	c.desc = append(c.desc, fmt.Sprintf("gated expiration %v", gf.Expiration))
 	c.desc = append(c.desc, fmt.Sprintf("gated/pg: [gated-0 jsonfmt-0 %s]", gs.id), fmt.Sprintf("gated-composite/pc: [jsonff-0 %s]", cs.id))
 	c.pairs["gated>jsonfmt"] = true
+	c.stockGate = &gated.Filter{Broker: b, Expiration: rt.Pick(r, []time.Duration{time.Hour, 150 * time.Microsecond, 2 * time.Millisecond})}
+	reg("gated-1", c.stockGate)
+	c.stockBufs = []*lockedBuf{{}, {}}
+	reg("gsw-0", &writer.Sink{Format: "json", Writer: c.stockBufs[0]})
+	reg("gsw-1", &writer.Sink{Format: "json", Writer: c.stockBufs[1]})
+	must(b.RegisterPipeline(eventlogger.Pipeline{PipelineID: "ps1", EventType: "gated-stock", NodeIDs: toIDs([]string{"gated-1", "jsonfmt-0", "gsw-0"})}))
+	must(b.RegisterPipeline(eventlogger.Pipeline{PipelineID: "ps2", EventType: "gated-stock", NodeIDs: toIDs([]string{"jsonfmt-0", "gsw-1"})}))
+	c.desc = append(c.desc, fmt.Sprintf("gated-stock/ps1: [gated-1 jsonfmt-0 gsw-0] (expiration %v)", c.stockGate.Expiration), "gated-stock/ps2: [jsonfmt-0 gsw-1]")
 	return c
 }
 
@@ -277,6 +290,11 @@ func toIDs(ids []string) []eventlogger.NodeID {
 		out[i] = eventlogger.NodeID(s)
 	}
 	return out
+}
+
+type stockRec struct {
+	p    *gated.Payload
+	want map[string]interface{}
 }
 
 // gatedP composes to type "gated-composite".
@@ -398,6 +416,7 @@ func TestC19(t *testing.T) {
 		var gatedMu sync.Mutex
 		var gatedSent []string
 		var gatedTrouble int64
+		stockSent := make([][]stockRec, nsend)
 		for s := 0; s < nsend; s++ {
 			wg.Add(1)
 			sr := cr.Fork()
@@ -405,6 +424,22 @@ func TestC19(t *testing.T) {
 				defer wg.Done()
 				bar.Wait()
 				for n := 0; n < nev; n++ {
+					if sr.Intn(6) == 0 {
+						// the library's own gated payload, with headers and details: the gating pipeline composes
+						// the group while the other pipeline formats the same payloads
+						id := fmt.Sprintf("sg%d-%d", s, n)
+						hdr := map[string]interface{}{"n": id, fmt.Sprintf("k%d", sr.Intn(3)): id}
+						want := map[string]interface{}{}
+						for k, v := range hdr {
+							want[k] = v
+						}
+						sp := &gated.Payload{ID: fmt.Sprintf("sgrp%d", sr.Intn(3)), Flush: sr.Intn(4) == 0, Header: hdr, Detail: map[string]interface{}{"d": id}}
+						if _, err := c.b.Send(ctx, "gated-stock", sp); err != nil {
+							atomic.AddInt64(&sendErrs, 1)
+						}
+						stockSent[s] = append(stockSent[s], stockRec{sp, want})
+						continue
+					}
 					if sr.Intn(5) == 0 {
 						id := fmt.Sprintf("g%d-%d", s, n)
 						st, err := c.b.Send(ctx, "gated", &gatedP{gated.Payload{ID: fmt.Sprintf("grp%d", sr.Intn(3)), Flush: sr.Intn(4) == 0, Header: map[string]interface{}{"n": id}}})
@@ -534,6 +569,7 @@ func TestC19(t *testing.T) {
 		if _, err := c.b.RemovePipelineAndNodes(ctx, "gated", "pg"); err != nil {
 			atomic.AddInt64(&gatedTrouble, 1)
 		}
+		c.stockGate.FlushAll(ctx)
 		close(stopDrain)
 		dwg.Wait()
 
@@ -541,6 +577,30 @@ func TestC19(t *testing.T) {
 		wit := func(extra string) any {
 			return map[string]any{"composition": c.desc, "senders": nsend, "events_per_sender": nev, "detail": extra}
 		}
+		// the library's gated payloads: what the sender handed in is what both pipelines worked on; neither
+		// pipeline's work shows in the payload the other one (and the sender) holds
+		nstock := 0
+		for _, recs := range stockSent {
+			for _, sr := range recs {
+				nstock++
+				if !reflect.DeepEqual(sr.p.Header, sr.want) {
+					run.Violation("history-pattern:shared-payload-modified", fmt.Sprintf("a gated.Payload sent with header %v holds header %v after the run: one pipeline's composition wrote into the payload another pipeline formats", sr.want, sr.p.Header), wit(""))
+					break
+				}
+			}
+		}
+		for bi, lb := range c.stockBufs {
+			lb.mu.Lock()
+			out := append([]byte(nil), lb.b.Bytes()...)
+			lb.mu.Unlock()
+			for _, line := range bytes.Split(bytes.TrimSuffix(out, []byte("\n")), []byte("\n")) {
+				if len(line) > 0 && !json.Valid(line) {
+					run.Violation("history-pattern:corrupt-output:gated-stock", fmt.Sprintf("sink gsw-%d holds a line that is not valid JSON: %.200q", bi, line), wit(""))
+					break
+				}
+			}
+		}
+		run.Add("stock_gated_payloads_sent", nstock)
 		c.keyMu.Lock()
 		keys := append([][]byte(nil), c.keys...)
 		hkeys := make([][]byte, len(c.cfgs))
